@@ -18,7 +18,7 @@ ID = 'C10'
 RULE = ('RuleBasedStateMachine histories over the public API of one TBRMatchedMarkets object built from a drawn (panel <=5 geos, '
         'eligibility, parameters) spec (half of the >=4-geo specs with two control-only geos carrying identical series, i.e. exactly tied designs): geos_over_budget, geos_too_large, geos_must_include, geos_within_constraints, '
         'geo_assignments, treatment_group_size_range, count_max_designs, treatment_group_generator(n), '
-        'control_group_generator(T), design_within_constraints(T, C), exhaustive_search, greedy_search, search_results, and the caller editing the list or the design objects it was handed (pop, reverse, clear, geo sets changed) followed by a retrieval. '
+        'control_group_generator(T), design_within_constraints(T, C), exhaustive_search, greedy_search, search_results, and the caller editing the list or the design objects it was handed (pop, reverse, clear, geo sets changed) followed by a retrieval; and the caller assigning a field of its live parameter object (the reference then is a fresh object with the new values; stored results are not asked for until the next search). '
         'Each answer (or exception type) is compared with the same call on a freshly built object; parameters / frame / '
         'eligibility frame must stay equal to deep copies. Non-trivial = history with >=2 searches, or >=2 retrievals, or a '
         'query after a search; distinct by spec hash (inputs + op sequence).')
@@ -80,6 +80,7 @@ class Runner:
     self.dead = False
     self.tied = False
     self.mutated = False
+    self.params_changed = False
     self.df0 = self.case.df.copy(deep=True)
     self.el0 = None if self.case.elig_df is None else self.case.elig_df.copy(deep=True)
     try:
@@ -168,6 +169,29 @@ class Runner:
       self._mutate_returned(op[1])
       self.mutated = True
       return
+    if kind == 'set_param':
+      # the caller changes a field of its (live) parameter object; from here on the reference is a fresh object built with
+      # the new values. Results stored by an earlier search are not asked for again before the next search.
+      field, value = op[1], op[2]
+      value = tuple(value) if isinstance(value, list) else value
+      import copy
+      from matched_markets.methodology import tbrmmdesignparameters
+      kw = dict(self.case.kwargs)
+      if value is None:
+        kw.pop(field, None)
+      else:
+        kw[field] = value
+      try:
+        tbrmmdesignparameters.TBRMMDesignParameters(**kw)
+      except ValueError:
+        return                      # not a legal combination: the caller does not do it
+      self.case = copy.copy(self.case)
+      self.case.kwargs = kw
+      setattr(self.par, field, value)
+      self.par0 = dataclasses.asdict(self.par)
+      self.last_search = None
+      self.params_changed = True
+      return
     got = self._call(self.obj, op)
     try:
       fresh = self._build()
@@ -216,6 +240,8 @@ class Runner:
       cls.append('exactly-tied-designs-returned')
     if self.mutated:
       cls.append('caller-edited-returned-designs')
+    if self.params_changed:
+      cls.append('parameter-changed-between-calls')
     if self.spec['base']['panel'].get('copy'):
       cls.append('twin-geos')
     return {'viol': list(self.viol[:3]), 'nt': nt, 'cls': cls, 'dc': 0}
@@ -310,6 +336,17 @@ def machine(tier, sink):
     def results_twice(self):
       self._do(['search_results'])
       self._do(['search_results'])
+
+    @rule(fv=st.sampled_from([('n_designs', 1), ('n_designs', 4), ('treatment_geos_range', [1, 1]), ('treatment_geos_range', [2, 3]),
+                              ('treatment_geos_range', [9, 12]), ('treatment_geos_range', None), ('control_geos_range', [1, 2]),
+                              ('control_geos_range', [7, 9]), ('control_geos_range', None), ('n_geos_max', 2), ('n_geos_max', 3), ('n_geos_max', None),
+                              ('geo_ratio_tolerance', 0.5), ('geo_ratio_tolerance', None)]),
+          then=st.sampled_from(['exhaustive_search', 'greedy_search', 'count_max_designs', 'geo_assignments']))
+    def change_parameter(self, fv, then):
+      self._do(['set_param', fv[0], fv[1]])
+      self._do([then])
+      if then.endswith('_search') and self.r.last_search is not None:
+        self._do(['search_results'])
 
     @precondition(lambda self: self.r is not None and self.r.last_search is not None)
     @rule(how=st.integers(0, 4))
